@@ -368,8 +368,12 @@ func (g *G) stmt(c ctx) []Stmt {
 		add(1+2*ws, func() []Stmt { return g.declOnlyBlock(c) })
 		add(1+2*ws, func() []Stmt { return g.selfNameFunc() })
 		add(1+3*ws, func() []Stmt { return g.shadowAfterFirstUse() })
+		add(1+2*ws, func() []Stmt { return g.closureFactoryTwice() })
+		add(1+2*ws, func() []Stmt { return g.lookupOnlyName() })
 		add(1+3*we, func() []Stmt { return g.recursiveDefers() })
 		add(1+wc, func() []Stmt { return g.returnElementOrder() })
+		add(1+2*wc, func() []Stmt { return g.counterWrittenByBody() })
+		add(1+wc, func() []Stmt { return g.mapValuesRewritten() })
 	}
 	if c.inLoop && (!c.tryBrk || g.allowControlInTry()) {
 		add(2+3*wc+ws, func() []Stmt { g.feat("break"); return []Stmt{&Break{}} })
@@ -533,6 +537,178 @@ func (g *G) shadowAfterFirstUse() []Stmt {
 			Cond: &Binary{Op: "<", L: &Name{N: "i9"}, R: &IntLit{V: 2}}, Post: &OpAssign{Target: &Name{N: "i9"}, Op: "+"}, Body: inner}
 	}
 	return []Stmt{&Assign{LHS: []Expr{&Name{N: n}}, RHS: []Expr{&IntLit{V: int64(10 + g.R.Intn(9))}}}, outer, rdn("n2")}
+}
+
+// closureFactoryTwice: a function literal is evaluated anew every time control reaches it and
+// captures the scope of THAT evaluation: two closures made by two invocations of one factory
+// read the factory's respective locals - also when the literal itself declares the same name
+// in a place that does not cover the read (a block not taken, after the read, an inner function)
+func (g *G) closureFactoryTwice() []Stmt {
+	g.feat("closure-factory-twice")
+	n := g.pick(g.pool)
+	mk, c1, c2 := g.fresh("cf"), g.fresh("ca"), g.fresh("cb")
+	var body []Stmt
+	switch g.R.Intn(4) {
+	case 0:
+		body = []Stmt{&If{Cond: &BoolLit{V: false}, Then: []Stmt{&VarStmt{Names: []string{n}, Exprs: []Expr{&IntLit{V: 1}}}}}, &Return{Exprs: []Expr{&Name{N: n}}}}
+	case 1:
+		r := g.fresh("cr")
+		body = []Stmt{&Assign{LHS: []Expr{&Name{N: r}}, RHS: []Expr{&Name{N: n}}}, &VarStmt{Names: []string{n}, Exprs: []Expr{&IntLit{V: 5}}}, &Return{Exprs: []Expr{&Name{N: r}}}}
+	case 2:
+		in := g.fresh("ci")
+		body = []Stmt{&Assign{LHS: []Expr{&Name{N: in}}, RHS: []Expr{&FuncLit{Body: []Stmt{&VarStmt{Names: []string{n}, Exprs: []Expr{&IntLit{V: 1}}}, &Return{Exprs: []Expr{&IntLit{V: 0}}}}}}},
+			&Return{Exprs: []Expr{&Name{N: n}}}}
+	default:
+		body = []Stmt{&Return{Exprs: []Expr{&Name{N: n}}}}
+	}
+	var factory Stmt
+	if g.R.Intn(2) == 0 {
+		// the name is the factory's parameter
+		factory = &ExprStmt{X: &FuncLit{Name: mk, Params: []string{n}, Body: []Stmt{&Return{Exprs: []Expr{&FuncLit{Body: body}}}}}}
+	} else {
+		// the name is a local of the factory
+		factory = &ExprStmt{X: &FuncLit{Name: mk, Params: []string{"q0"}, Body: []Stmt{
+			&VarStmt{Names: []string{n}, Exprs: []Expr{&Binary{Op: "*", L: &Name{N: "q0"}, R: &IntLit{V: 10}}}},
+			&Return{Exprs: []Expr{&FuncLit{Body: body}}}}}}
+	}
+	call := func(f string) Expr { return &Call{Fn: f} }
+	rd := func(tag string, x Expr) Stmt {
+		return &ExprStmt{X: &Call{Fn: "rd", Args: []Expr{&StrLit{V: tag}, x}}}
+	}
+	out := []Stmt{factory,
+		&Assign{LHS: []Expr{&Name{N: c1}}, RHS: []Expr{&Call{Fn: mk, Args: []Expr{&IntLit{V: 1}}}}},
+		&Assign{LHS: []Expr{&Name{N: c2}}, RHS: []Expr{&Call{Fn: mk, Args: []Expr{&IntLit{V: 2}}}}},
+		rd("c1", call(c1)), rd("c2", call(c2)), rd("c1", call(c1))}
+	if g.R.Intn(2) == 0 {
+		// a third closure made in a loop, the factory re-entered
+		l := g.fresh("cl")
+		out = append(out, &ForIn{Vars: []string{l}, X: &ListLit{Elems: []Expr{&IntLit{V: 3}, &IntLit{V: 4}}},
+			Body: []Stmt{rd("cl", &Call{Fn: "h1", Args: []Expr{&Call{Fn: mk, Args: []Expr{&Name{N: l}}}}})}})
+		out = out[:len(out)-1]
+		out = append(out, rd("c2", call(c2)))
+	}
+	return out
+}
+
+// lookupOnlyName: xl is answered by the host's lookup object of the outermost scope only. It reads
+// as the host's value until the script binds it; a script binding is nearer from every scope
+// below it, and an assignment never reaches the lookup (it updates the nearest script binding
+// or creates one in the current block)
+func (g *G) lookupOnlyName() []Stmt {
+	g.feat("name-answered-by-host-lookup")
+	xl := func() Expr { return &Name{N: "xl"} }
+	rd := func(tag string) Stmt { return &ExprStmt{X: &Call{Fn: "rd", Args: []Expr{&StrLit{V: tag}, xl()}}} }
+	inc := &Assign{LHS: []Expr{xl()}, RHS: []Expr{&Binary{Op: "+", L: xl(), R: &IntLit{V: 1}}}}
+	fn := g.fresh("xf")
+	var out []Stmt
+	out = append(out, rd("x0"), &If{Cond: &BoolLit{V: true}, Then: []Stmt{rd("x1")}})
+	switch g.R.Intn(4) {
+	case 0:
+		out = append(out, &Assign{LHS: []Expr{xl()}, RHS: []Expr{&IntLit{V: int64(5 + g.R.Intn(4))}}})
+	case 1:
+		out = append(out, &VarStmt{Names: []string{"xl"}, Exprs: []Expr{&IntLit{V: int64(5 + g.R.Intn(4))}}})
+	case 2:
+		// bound inside a block only: gone after it
+		out = append(out, &If{Cond: &BoolLit{V: true}, Then: []Stmt{&VarStmt{Names: []string{"xl"}, Exprs: []Expr{&IntLit{V: 7}}}, rd("xb"),
+			&If{Cond: &BoolLit{V: true}, Then: []Stmt{rd("xc"), inc, rd("xd")}}, rd("xe")}})
+	}
+	out = append(out, rd("x2"))
+	// a function reads the name, assigns it (the nearest script binding, else a local of the
+	// invocation) and reads it again; called twice
+	out = append(out, &ExprStmt{X: &FuncLit{Name: fn, Body: []Stmt{rd("f0"), inc, rd("f1"),
+		&If{Cond: &BoolLit{V: true}, Then: []Stmt{rd("f2")}}, &Return{Exprs: []Expr{xl()}}}}},
+		&ExprStmt{X: &Call{Fn: "rd", Args: []Expr{&StrLit{V: "r1"}, &Call{Fn: fn}}}},
+		&ExprStmt{X: &Call{Fn: "rd", Args: []Expr{&StrLit{V: "r2"}, &Call{Fn: fn}}}})
+	switch g.R.Intn(3) {
+	case 0:
+		out = append(out, &CFor{Init: &Assign{LHS: []Expr{&Name{N: "i9"}}, RHS: []Expr{&IntLit{V: 0}}},
+			Cond: &Binary{Op: "<", L: &Name{N: "i9"}, R: &IntLit{V: 3}}, Post: &OpAssign{Target: &Name{N: "i9"}, Op: "+"},
+			Body: []Stmt{rd("l0"), inc, rd("l1")}})
+	case 1:
+		out = append(out, &ForIn{Vars: []string{"it"}, X: &ListLit{Elems: []Expr{&IntLit{V: 1}, &IntLit{V: 2}}}, Body: []Stmt{rd("l0"), inc, rd("l1")}})
+	}
+	out = append(out, rd("x3"))
+	return out
+}
+
+// counterWrittenByBody: the counter of a C-style loop is an ordinary variable: what the body (an
+// inner loop, a called function) stores into it is what the post expression steps and what the
+// condition tests next
+func (g *G) counterWrittenByBody() []Stmt {
+	g.feat("cfor-body-writes-counter")
+	i := g.fresh("ic")
+	rd := func(tag string) Stmt { return &ExprStmt{X: &Call{Fn: "rd", Args: []Expr{&StrLit{V: tag}, &Name{N: i}}}} }
+	set := func(at, to int64) Stmt {
+		return &If{Cond: &Binary{Op: "==", L: &Name{N: i}, R: &IntLit{V: at}}, Then: []Stmt{&Assign{LHS: []Expr{&Name{N: i}}, RHS: []Expr{&IntLit{V: to}}}}}
+	}
+	up := func(body ...Stmt) Stmt {
+		var post Expr = &OpAssign{Target: &Name{N: i}, Op: "+"} // i++
+		if g.R.Intn(3) == 0 {
+			post = &OpAssign{Target: &Name{N: i}, Op: "+", R: &IntLit{V: 1}} // i += 1
+		}
+		return &CFor{Init: &Assign{LHS: []Expr{&Name{N: i}}, RHS: []Expr{&IntLit{V: 0}}},
+			Cond: &Binary{Op: "<", L: &Name{N: i}, R: &IntLit{V: 6}}, Post: post, Body: body}
+	}
+	var loop Stmt
+	switch g.R.Intn(5) {
+	case 0: // skip ahead
+		loop = up(&ExprStmt{X: g.p()}, set(1, 3), rd("i"))
+	case 1: // end the loop from the body
+		loop = up(rd("i"), set(2, 10))
+	case 2: // repeat a round once
+		f := g.fresh("once")
+		loop = up(rd("i"), &If{Cond: &Binary{Op: "==", L: &Name{N: f}, R: &IntLit{V: 0}}, Then: []Stmt{
+			&If{Cond: &Binary{Op: "==", L: &Name{N: i}, R: &IntLit{V: 2}}, Then: []Stmt{&Assign{LHS: []Expr{&Name{N: f}}, RHS: []Expr{&IntLit{V: 1}}},
+				&Assign{LHS: []Expr{&Name{N: i}}, RHS: []Expr{&IntLit{V: 1}}}}}}})
+		return []Stmt{&Assign{LHS: []Expr{&Name{N: f}}, RHS: []Expr{&IntLit{V: 0}}}, loop, rd("after")}
+	case 3: // an inner loop steps the outer counter
+		j := g.fresh("jc")
+		inner := &CFor{Init: &Assign{LHS: []Expr{&Name{N: j}}, RHS: []Expr{&IntLit{V: 0}}},
+			Cond: &Binary{Op: "<", L: &Name{N: j}, R: &IntLit{V: 2}}, Post: &OpAssign{Target: &Name{N: j}, Op: "+"},
+			Body: []Stmt{&ExprStmt{X: &OpAssign{Target: &Name{N: i}, Op: "+"}}}}
+		loop = up(rd("i"), inner, rd("j"))
+	default: // counting down, the counter written by a called function
+		fn := g.fresh("dec")
+		loop = &CFor{Init: &Assign{LHS: []Expr{&Name{N: i}}, RHS: []Expr{&IntLit{V: 6}}},
+			Cond: &Binary{Op: ">", L: &Name{N: i}, R: &IntLit{V: 0}}, Post: &OpAssign{Target: &Name{N: i}, Op: "-"},
+			Body: []Stmt{rd("i"), &ExprStmt{X: &Call{Fn: fn}}}}
+		return []Stmt{&Assign{LHS: []Expr{&Name{N: i}}, RHS: []Expr{&IntLit{V: 0}}},
+			&ExprStmt{X: &FuncLit{Name: fn, Body: []Stmt{&Assign{LHS: []Expr{&Name{N: i}}, RHS: []Expr{&Binary{Op: "-", L: &Name{N: i}, R: &IntLit{V: 1}}}}, &Return{Exprs: []Expr{&IntLit{V: 0}}}}}},
+			loop, rd("after")}
+	}
+	return []Stmt{loop, rd("after")}
+}
+
+// mapValuesRewritten: for k, v in m visits every entry once and v is the entry's value when it is
+// visited: the first round rewrites every entry (all values equal before and after, so the
+// order of the visits does not show)
+func (g *G) mapValuesRewritten() []Stmt {
+	g.feat("forin-map-values-rewritten-by-first-round")
+	id := g.probeID()
+	m, fl := g.fresh("mr"), g.fresh("fr")
+	n := 2 + g.R.Intn(3)
+	lit := &MapLit{}
+	var rewrite []Stmt
+	for i := 0; i < n; i++ {
+		k := "k" + strconv.Itoa(i)
+		lit.Keys = append(lit.Keys, &StrLit{V: k})
+		lit.Vals = append(lit.Vals, &IntLit{V: 1})
+		if i%2 == 0 {
+			rewrite = append(rewrite, &Assign{LHS: []Expr{&Member{X: &Name{N: m}, Name: k}}, RHS: []Expr{&IntLit{V: 100}}})
+		} else {
+			rewrite = append(rewrite, &Assign{LHS: []Expr{&Index{X: &Name{N: m}, I: &StrLit{V: k}}}, RHS: []Expr{&IntLit{V: 100}}})
+		}
+	}
+	first := &If{Cond: &Binary{Op: "==", L: &Name{N: fl}, R: &IntLit{V: 0}}, Then: append([]Stmt{&Assign{LHS: []Expr{&Name{N: fl}}, RHS: []Expr{&IntLit{V: 1}}}}, rewrite...)}
+	return []Stmt{
+		&Assign{LHS: []Expr{&Name{N: m}}, RHS: []Expr{lit}},
+		&Assign{LHS: []Expr{&Name{N: fl}}, RHS: []Expr{&IntLit{V: 0}}},
+		&ExprStmt{X: &Call{Fn: "mb", Args: []Expr{&IntLit{V: id}}}},
+		&ForIn{Vars: []string{"mk", "mv"}, X: &Name{N: m}, Body: []Stmt{
+			&ExprStmt{X: &Call{Fn: "rd", Args: []Expr{&StrLit{V: "v"}, &Name{N: "mv"}}}}, first}},
+		&ExprStmt{X: &Call{Fn: "me", Args: []Expr{&IntLit{V: id}}}},
+		&ExprStmt{X: &Call{Fn: "rd", Args: []Expr{&StrLit{V: "n"}, &Len{X: &Name{N: m}}}}},
+	}
 }
 
 // recursiveDefers: a function that defers and re-enters itself, used several times: every
@@ -967,6 +1143,13 @@ func (g *G) switchStmt(c ctx) []Stmt {
 			case 2:
 				g.feat("switch-nonliteral-case")
 				ce = &Unary{Op: "-", X: &IntLit{V: int64(-g.R.Intn(6))}}
+			case 3:
+				// a case expression that fails ends the statement with that error: no later
+				// case is evaluated, no body and no default runs
+				if g.R.Intn(2) == 0 {
+					g.feat("switch-failing-case-expr")
+					ce = g.failExpr()
+				}
 			}
 			cs.Exprs = append(cs.Exprs, ce)
 		}
